@@ -9,13 +9,17 @@ import vlib
 
 LEVEL = "exploration"
 
-RULE = ("every recorded call evd(symmetric) on integer-valued square matrices of order <= 8 (|entries| <= 16, cap 4 at "
-        "order 8) in f64 and f32; symmetric solver: dense, repeated eigenvalues (aI+bJ, Hadamard-conjugated diagonals), "
+RULE = ("every recorded call evd(symmetric) on integer-valued square matrices of order 1..12 (|entries| <= 16, cap 4 from "
+        "order 8) plus a size ladder at orders 20, 33, 64 (entries clamped to +-2) in f64 and f32; symmetric solver: dense, repeated eigenvalues (aI+bJ, Hadamard-conjugated diagonals), "
         "diagonal, block-diagonal, low-rank Gram, tridiagonal with zero couplings, zero matrix, each also scaled by 2^40 / "
         "2^-40; general solver: dense, triangular (repeated diagonal), companion, rotation blocks (plain and mixed by a "
         "unimodular similarity), badly balanced (D A D^-1, D = diag(2^k), |k| <= 5 in f64, <= 1 in f32), normal (skew+cI, "
         "circulant, symmetric), "
-        "nilpotent (defective), signed permutations, block upper triangular; exhaustive: all 729 symmetric 3x3 over "
+        "nilpotent (defective), signed permutations, block upper triangular, and structured profiles: diagonal + strictly upper "
+        "part with an empty first super-diagonal, nilpotent with all mass >= 2 places above the diagonal (powers of a shift), block "
+        "upper triangular with off-diagonal blocks 2^k times larger than the diagonal blocks, upper Hessenberg with zero first "
+        "super-diagonal and sub-diagonal gaps, companion matrices (last column / first row), each also transposed or symmetrically "
+        "permuted; exhaustive: all 729 symmetric 3x3 over "
         "{-1,0,1} through both solvers, all 2x2 over {-2..2} (thorough {-3..3}, and all 19683 3x3 over {-1,0,1}) through "
         "the general solver. A call is non-trivial when A is not diagonal (symmetric solver) or has a complex pair or a "
         "non-triangular shape (general solver); distinct = distinct (sym, width, se, bal, A) tuples")
@@ -147,7 +151,7 @@ def run(ctx):
     ctx.extra["harness_stats"] = stats
     ctx.extra["not_covered"] = [
         "accuracy finer than about 2^-10 relative to ||A|| ('up to rounding error' is NOT decided)",
-        "orders above 8; |entries| above 16 (cap 4 at order 8); non-integer data",
+        "orders other than 1..12, 20, 33, 64; |entries| above 16 (cap 4 from order 8, 2 on the ladder); non-integer data",
         "uniform rescaling of general (non-symmetric) input (the statement quantifies it for symmetric input only)",
         "badly balanced input beyond a power-of-two spread of 2^10 (f64) / 2^2 (f32): accuracy is promised relative to the norm "
         "of the matrix fed, which the integer contract cannot resolve any more",
